@@ -86,9 +86,10 @@ def _perturb_variables(
             return_index=True,
         )
         sampler_indices = unique[np.argsort(indices)]
+        # The arrays belong to the samplers, they are not modified in place:
         samples = samplers[sampler_indices[0]].generate_samples()
         for sampler_idx in sampler_indices[1:]:
-            samples += samplers[sampler_idx].generate_samples()
+            samples = samples + samplers[sampler_idx].generate_samples()
     return _apply_bounds(
         variables + config.gradient.perturbation_magnitudes * samples,
         config.variables.lower_bounds,
